@@ -6,11 +6,11 @@
 (* any length:                                                               *)
 (*   ParserNeverStuck  a parser that wants a token finds the lexer sending   *)
 (*                     or the channel closed                                 *)
-(*   DrainEnabled      once the parser has returned, the lexer either has    *)
-(*                     exited or can take a step (DropToken) ...             *)
+(*   DrainEnabled      while the parser waits (closing), the lexer either    *)
+(*                     has exited or can take a step (DropToken) ...         *)
 (*   Variant           ... and each lexer step consumes one of the N - lidx  *)
-(*                     remaining tokens or exits: it exits after at most N    *)
-(*                     steps (no goroutine is left behind)                   *)
+(*                     remaining tokens or exits                             *)
+(*   NoLexerAtReturn   when Parse has returned the tokeniser has exited      *)
 EXTENDS Integers
 
 CONSTANTS
@@ -44,27 +44,35 @@ Handoff == /\ lpc = "send" /\ ppc = "run" /\ ~closed
            /\ AfterToken(lidx)
            /\ UNCHANGED <<ppc, done>>
 ParserReturn == /\ ppc = "run"
-                /\ ppc' = "returned" /\ done' = Drain
+                /\ ppc' = (IF Drain THEN "closing" ELSE "returned") /\ done' = Drain
                 /\ UNCHANGED <<lpc, lidx, closed, got>>
+(* Parse returns only after the tokeniser has exited *)
+Join == /\ ppc = "closing" /\ lpc = "exited"
+        /\ ppc' = "returned"
+        /\ UNCHANGED <<lpc, lidx, closed, got, done>>
+(* a token that cannot be delivered any more is dropped and the tokeniser stops *)
 DropToken == /\ lpc = "send" /\ done
-             /\ AfterToken(lidx)
-             /\ UNCHANGED <<ppc, got, done>>
-Next == Handoff \/ ParserReturn \/ DropToken
+             /\ lpc' = "exited"
+             /\ UNCHANGED <<lidx, closed, ppc, got, done>>
+Next == Handoff \/ ParserReturn \/ Join \/ DropToken
 
 IndInv ==
-  /\ lpc \in {"send", "exited"} /\ ppc \in {"run", "returned"}
+  /\ lpc \in {"send", "exited"} /\ ppc \in {"run", "closing", "returned"}
   /\ lidx >= 1 /\ lidx <= N /\ got >= 0 /\ got <= lidx
   /\ (lpc = "send" => got < lidx)          \* the token about to be sent has not been received
-  /\ (lpc = "exited") = closed
-  /\ (lpc = "exited" => lidx = N)
-  /\ done = (ppc = "returned")
+  /\ (closed => lpc = "exited")
+  /\ ((lpc = "exited" /\ ~closed) => done)         \* the only exit without closing the channel is the one after `done`
+  /\ (closed => lidx = N)
+  /\ done = (ppc # "run")
+  /\ (ppc = "returned" => lpc = "exited")          \* NoLexerAtReturn
 (* the inductive step starts from ANY state satisfying IndInv *)
-IndInit == /\ lpc \in {"send", "exited"} /\ ppc \in {"run", "returned"} /\ lidx \in Int /\ got \in Int
+IndInit == /\ lpc \in {"send", "exited"} /\ ppc \in {"run", "closing", "returned"} /\ lidx \in Int /\ got \in Int
            /\ closed \in BOOLEAN /\ done \in BOOLEAN
            /\ IndInv
 ParserNeverStuck == ppc = "run" => (lpc = "send" \/ closed)
-DrainEnabled == (ppc = "returned" /\ lpc = "send") => done
-Safe == IndInv /\ ParserNeverStuck /\ DrainEnabled
+DrainEnabled == (ppc = "closing" /\ lpc = "send") => done
+NoLexerAtReturn == ppc = "returned" => lpc = "exited"
+Safe == IndInv /\ ParserNeverStuck /\ DrainEnabled /\ NoLexerAtReturn
 (* every lexer step either exits or moves to the next of the N tokens *)
 Variant == (lpc' # lpc \/ lidx' # lidx) => (lpc' = "exited" \/ lidx' = lidx + 1)
 =============================================================================
